@@ -24,6 +24,10 @@ for d in sorted(os.listdir(root)):
         'detected_by_check': bool(detected),
         'violations_reported': detected,
     }
+    du = os.path.join(p, 'detected_under')
+    if os.path.exists(du):
+        meta['detected_under_property'] = open(du).read().strip()
+        meta['note'] = 'the change does not contradict the statement of %s (see DESIGN.md); it is a violation of %s and is reported by that check' % (prop, meta['detected_under_property'])
     extra = os.path.join(p, 'extra.json')
     if os.path.exists(extra):
         meta.update(json.load(open(extra)))
